@@ -38,6 +38,9 @@ for d in sorted(glob.glob("/tmp/seedout/C*_*")):
         },
         "checks_run": {k: ("caught (exit 1, VIOLATION replayed)" if v == "1" else ("missed (exit 0)" if v == "0" else "inconclusive (exit %s)" % v)) for k, v in checks.items()},
     }
+    extra = json.load(open("/verif/tools/seed_extra.json")).get(name)
+    if extra:
+        m["other_checks_and_notes"] = extra
     json.dump(m, open(os.path.join(dst, "meta.json"), "w"), indent=1)
     out.append((name, m["checks_run"]))
 for n, c in out:
